@@ -51,6 +51,10 @@ def programs(t):
         'lost-events-marker': [ev('BSC_getppid', 1, tid=t), ev('TRACE_LOST_EVENTS', 0, (0, 0, 0, 0), t), ev('BSC_getppid', 2, (0, 1, 0, 0), t)],
         # declares a child whose THREAD id is the same number as the PROCESS id a sibling's exec pair names (ids are only numbers)
         'newthread-tid-like-a-pid': [ev('TRACE_DATA_NEWTHREAD', 0, (10 * (t % 3 + 1) + 1, pid + 7, 0, 0), t), ev('TRACE_STRING_NEWTHREAD', 0, tid=t, data=S(nm + b'k'))],
+        # a sampler's thread-data record about the thread a SIBLING's new-thread pair announces (two declarations about one thread id:
+        # which one the thread map ends with depends on the order - that key is not compared - but never the learned NAMES)
+        'thread-data-about-a-siblings-child': [ev('PERF_THD_Data', 0, (900 + t, 100 + (t % 3 + 1), 0, 1), t), ev('BSC_getppid', 1, tid=t),
+                                               ev('BSC_getppid', 2, (0, 1, 0, 0), t)],
         'exec+rename': [ev('TRACE_DATA_EXEC', 0, (pid + 2, 0, 0, 0), t), ev('BSC_getpid', 1, tid=t), ev('TRACE_STRING_EXEC', 0, tid=t, data=S(nm + b'y')),
                         ev('BSC_getpid', 2, (0, pid, 0, 0), t)],
     }
@@ -79,8 +83,16 @@ def run(seq, prefilled=False):
         for e in seq:
             clocks[e.tid] = clocks.get(e.tid, (4 - e.tid) << 40) + 1
             recs.append(B.rec(clocks[e.tid], tid=e.tid, debugid=e.debugid, data=e.data))
-        for r in f.traces(io.BytesIO(B.v2([], 0, recs)), _tcodes()):
+        blob = B.v2([], 0, recs)
+        for r in f.traces(io.BytesIO(blob), _tcodes()):
             note(r)
+        # the same file listed with a thread filter for each participating thread: exactly that thread's traces
+        for tid in sorted(clocks):
+            f2 = PyKdebugParser()
+            f2.filter_tid = tid
+            only = [(type(r).__name__, str(r), tuple((x.eventid, x.func_qualifier, x.data, x.tid) for x in r.ktraces)) for r in f2.traces(io.BytesIO(blob), _tcodes())]
+            if only != per.get(tid, []):
+                per.setdefault(('thread-filter', tid), []).append(('differs', len(only), len(per.get(tid, []))))
         return per, dict(f.threads_pids), dict(f.pids_names), {}, {}
     if prefilled == 'gen':
         for r in p.feed_generator(e._replace(timestamp=5) for e in seq):
@@ -117,12 +129,15 @@ def judge(combo, schedule, trunc, prefilled=False):
     progs = []
     base_tp, base_pn = ({1: 91, 2: 92, 3: 93}, {91: 'q1', 92: 'q2', 93: 'q3'}) if prefilled is True else ({}, {})
     exp_per, exp_tp, exp_pn, exp_tn, exp_gs = {}, dict(base_tp), dict(base_pn), {}, {}
+    contested = set()       # thread ids that two programs declare differently: the last declaration wins, by design
     for i, name in enumerate(combo):
         prog, (per, tp, pn, tn, gs) = solo(name, i + 1, trunc, prefilled)
         progs.append(prog)
         exp_per.update(per)
         # what this thread's own program learned = its changes relative to the initial tables
-        exp_tp.update({k: v for k, v in tp.items() if base_tp.get(k) != v})
+        learned = {k: v for k, v in tp.items() if base_tp.get(k) != v}
+        contested |= {k for k, v in learned.items() if k in exp_tp and exp_tp[k] != v and base_tp.get(k) != exp_tp[k]}
+        exp_tp.update(learned)
         exp_pn.update({k: v for k, v in pn.items() if base_pn.get(k) != v})
         exp_tn.update(tn)
         exp_gs.update(gs)
@@ -136,14 +151,16 @@ def judge(combo, schedule, trunc, prefilled=False):
     except Exception as ex:
         return ('interleaving-raised:' + type(ex).__name__, {'error': repr(ex)[:200]})
     if per != exp_per:
-        for t in sorted(set(per) | set(exp_per)):
+        for t in sorted(set(per) | set(exp_per), key=repr):
             if per.get(t) != exp_per.get(t):
+                if isinstance(t, tuple):
+                    return ('thread-filtered-listing-is-not-the-thread-projection', {'thread': t[1], 'detail': repr(per.get(t))[:200]})
                 return ('per-thread-traces-depend-on-interleaving',
                         {'thread': t, 'program': combo[t - 1] if t <= len(combo) else '?',
                          'got': [x[1] for x in per.get(t, [])], 'solo': [x[1] for x in exp_per.get(t, [])]})
     if pn != exp_pn:
         return ('learned-process-names-depend-on-interleaving', {'got': repr(pn), 'union_of_solo_runs': repr(exp_pn)})
-    if tp != exp_tp:
+    if {k: v for k, v in tp.items() if k not in contested} != {k: v for k, v in exp_tp.items() if k not in contested}:
         return ('learned-thread-table-depends-on-interleaving', {'got': repr(tp), 'union_of_solo_runs': repr(exp_tp)})
     if tn != exp_tn or gs != exp_gs:
         return ('learned-names-or-strings-depend-on-interleaving', {'got': repr((tn, gs)), 'union_of_solo_runs': repr((exp_tn, exp_gs))})
@@ -153,11 +170,11 @@ def judge(combo, schedule, trunc, prefilled=False):
 class C05(Check):
     pid = 'C05'
     level = 'model_checking'
-    rule = ('schedules: for every ordered pair (and, per tier, triple) of per-thread programs from a library of 16 (syscall with '
+    rule = ('schedules: for every ordered pair (and, per tier, triple) of per-thread programs from a library of 17 (syscall with '
             'lookup, NEWTHREAD data+string, EXEC data+string, nested syscalls, thread name + terminate, sampler window, global '
             'string + dlopen, 3-record lookup inside stat64, page fault with nested record, launch with nested map, EXEC pair with '
             'an unrelated syscall in between, NEWTHREAD pair announcing a sibling participant\'s thread id, two ENDs whose STARTs fell before the capture, a read whose records are byte-identical on every thread, a call interrupted by the lost-events marker of the kernel, a NEWTHREAD pair whose thread id is numerically the process id a sibling names), each parameterised by its own tid/pid/names, EVERY interleaving (merge preserving '
-            'each program\'s order) is fed to a fresh TracesParser - once built with empty tables, once with a thread map already populated at construction, and once through feed_generator with every record carrying the same timestamp; every pair also as a version-2 dump FILE through PyKdebugParser.traces with per-thread clocks 2^40 ticks apart (the tables of the facade object are the ones compared). Plus one schedule family with a gap of 600..40 000 foreign records inside an open call, through feed_generator. quick: all pairs (full programs) + all triples of programs '
+            'each program\'s order) is fed to a fresh TracesParser - once built with empty tables, once with a thread map already populated at construction, and once through feed_generator with every record carrying the same timestamp; every pair also as a version-2 dump FILE through PyKdebugParser.traces with per-thread clocks 2^40 ticks apart (the tables of the facade object are the ones compared; the same file is also listed once per participating thread with the thread filter set). Plus one schedule family with a gap of 600..40 000 foreign records inside an open call, through feed_generator. quick: all pairs (full programs) + all triples of programs '
             'truncated to 2 events; thorough: all pairs and all triples of full programs. Oracle: per-thread list of (trace type, '
             'text, window) equals the solo run of that thread\'s program; learned tables equal the union of the solo runs. '
             'states = distinct program combinations; transitions = feeds; non-trivial = schedule with at least one context switch '
